@@ -263,6 +263,34 @@ def _formats(ctx, rng, tmp):
         must = [c for c in cases if "asctime" in c[1] or c[1] in ("hello", "", "%(thread)c", "%(process)c")]
         rest = [c for c in cases if c not in must]
         cases = must + rng.sample(rest, min(len(rest), 200))
+    # the classic style against the model ZCV/Model/LogFormat.lean (CPython's `str % mapping` on the sample record + logging's
+    # validation): accepted at load <-> the model accepts, and the class of the exception when the format check itself raises
+    classic = sorted({f for st_, f in cases if st_ == "classic"})
+    more = []
+    for _ in range(3000 if ctx.thorough() else 400):
+        fld = rng.choice(FIELDS + ["nosuch", "msg", "args", "threadName"])
+        flags = "".join(rng.sample("-+ #0", rng.randint(0, 2)))
+        width = rng.choice(["", "", "5", "*", "12"])
+        prec = rng.choice(["", "", ".2", ".", ".*"])
+        lm = rng.choice(["", "", "l", "h"])
+        conv = rng.choice(list("sdrfxXceEgGioua%") + ["", "z"])
+        more.append(rng.choice(["", "x ", "%% "]) + "%%(%s)%s%s%s%s%s" % (fld, flags, width, prec, lm, conv) + rng.choice(["", " y", " %(message)s", " %s"]))
+    classic += more
+    if ctx.driver_ok:
+        mans = core.driver_batch([[Atom("logfmt"), f] for f in classic])
+        for f, a in zip(classic, mans):
+            if "\n" in f or "$" in f:
+                continue
+            text = "<logger>\n name zcv.c20.lf\n <logfile>\n  path STDOUT\n  format %s\n </logfile>\n</logger>\n" % f
+            if f.strip() != f or not f:
+                continue        # the configuration parser strips values; an empty format means the default
+            r = load(text)
+            ctx.evaluations += 1
+            got = "accepted" if r[0] == "ok" else "rejected" if r[0] == "cfg" else "raised:" + r[1]
+            want = "accepted" if a[0] == "t" else ("rejected" if a[1] == "ValueError" else "raised:" + str(a[1]))
+            ctx.count("classic-model:" + got.split(":")[0])
+            if got != want:
+                ctx.disagree("classic-format", {"format": f}, got, [a[0], str(a[1])])
     i = 0
     for style, fmt in cases:
         for arb in (False, True):
